@@ -129,6 +129,10 @@ pub struct WorldSpec {
     /// number of drop-counting tags used by `TSpec::Tagged`
     #[serde(default)]
     pub tags: usize,
+    /// tags whose destructor panics (once, and not while the thread is already unwinding): the
+    /// value they are attached to has a panicking `Drop`
+    #[serde(default)]
+    pub panicky_tags: Vec<usize>,
 }
 
 #[derive(Clone, Copy, PartialEq, Eq, Debug, Serialize, Deserialize, Hash, PartialOrd, Ord)]
